@@ -131,6 +131,26 @@ func factsHashring() {
 	}
 	emitStr("simpleGetNIndex", "pkg/receive/hashring.go simpleHashring.GetN: the index expression", sidx)
 
+	// ---- C19 (known finding): metrics registration of shuffle shard rings and the reload sequence
+	emitList("shuffleShardMetricsRegistration", "pkg/receive/hashring.go newShuffleShardCacheMetrics: how the collectors are registered",
+		callSeq(body(fn(f, "", "newShuffleShardCacheMetrics")), "promauto.With"))
+	var reload []string
+	if fr := parse("cmd/thanos/receive.go"); fr != nil {
+		for _, d := range fr.Decls {
+			if fd, ok := d.(*ast.FuncDecl); ok && fd.Body != nil {
+				seq := callSeq(fd.Body, "receive.NewMultiHashring", "webHandler.Hashring")
+				for i, c := range seq {
+					if c == "receive.NewMultiHashring" && i+1 < len(seq) {
+						reload = []string{c, seq[i+1]}
+					}
+				}
+			}
+		}
+	}
+	emitList("hashringReloadOrder", "cmd/thanos/receive.go: the new multi hashring is built before it is handed to the handler (which closes the old one)", reload)
+	emitList("handlerHashringSwap", "pkg/receive/handler.go Handler.Hashring: the old hashring is closed when the new one is installed",
+		callSeq(body(fn(parse("pkg/receive/handler.go"), "Handler", "Hashring")), "h.hashring.Close"))
+
 	// ---- C27: multiHashring.GetN lock skeleton, what is cached, isExactMatcher
 	mget := fn(f, "multiHashring", "GetN")
 	emitList("multiGetNLocks", "pkg/receive/hashring.go multiHashring.GetN: lock calls in source order",
